@@ -73,6 +73,7 @@ type c18Cfg struct {
 	// with colours whose packed bytes differ from each other
 	recolour bool
 	fg, bg   uint8
+	hiColour bool // one of fg/bg is an index from the end of the palette (logo colours)
 }
 
 // c18Recolour is a console whose DefaultColors are generated; everything else
@@ -103,6 +104,15 @@ func c18PickColours(r *vlib.Rand, g *c18Cfg) {
 	g.bg = uint8(r.Intn(15))
 	if g.bg == g.fg {
 		g.bg = (g.bg + 1) % 15
+	}
+	if g.kind == "fb" && g.logoH > 0 && r.Chance(1, 3) {
+		// one of the two colours from the palette entries the logo claims for itself (the last ones)
+		if r.Bool() {
+			g.fg = uint8(256 - 1 - r.Intn(12))
+		} else {
+			g.bg = uint8(256 - 1 - r.Intn(12))
+		}
+		g.hiColour = true
 	}
 }
 
@@ -527,6 +537,22 @@ func c18RunCase(c *vlib.Case, run *vlib.Run, tot *c18Totals, arena *vlib.Arena, 
 		return
 	}
 	dev := scr.dev
+	if g.recolour && g.hiColour && g.bpp != 8 {
+		// the glyphs can only be decoded if the two colours differ on screen: move the EGA one if they do not
+		for k := 0; k < 15; k++ {
+			a, ok1 := c18Pack(g, scr.pal, g.fg)
+			b, ok2 := c18Pack(g, scr.pal, g.bg)
+			if ok1 && ok2 && a != b {
+				break
+			}
+			if g.fg < 16 {
+				g.fg = (g.fg + 1) % 15
+			} else {
+				g.bg = (g.bg + 1) % 15
+			}
+		}
+		run.Count("framebuffer_consoles_with_a_logo_and_a_terminal_colour_from_the_logo_palette_range", 1)
+	}
 	if g.recolour {
 		dev = &c18Recolour{Device: scr.dev, fg: g.fg, bg: g.bg}
 		run.Count("consoles_with_overridden_default_colours", 1)
